@@ -45,6 +45,7 @@ def run(ctx):
     r55(ctx, m)
     r56(ctx)
     r57(ctx, m)
+    r59(ctx, m)
     from . import c08 as _c08
     _c08.r87(ctx, ctx.repo['util'], 'R5.8')
     from . import c04 as _c04
@@ -351,9 +352,12 @@ def r54(ctx, m):
     ctx.ob('R5.4', 'api.filter_out_cats:conditions-selected-by-partition-name',
            len(appf) == 1 and norm(appf[0].value) == '[f[1:] for f in filters if f[0] == cat]', '', m.loc(g))
     metas = [norm(s) for s in iter_child_stmts(g.body) if isinstance(s, ast.Assign) and 'partition_meta.get(cat)' in norm(s)]
+    typed = [s for s in iter_child_stmts(g.body) if isinstance(s, ast.Assign) and any(
+        isinstance(c, ast.Call) and callee(c) == 'val_to_num' and kwarg(c, 'meta', 1) is not None for c in ast.walk(s.value))]
+    metas_ok = all(norm(kwarg(c, 'meta', 1)) == 'partition_meta.get(cat)' for s in typed for c in ast.walk(s.value)
+                   if isinstance(c, ast.Call) and callee(c) == 'val_to_num' and kwarg(c, 'meta', 1) is not None)
     ctx.ob('R5.4', 'api.filter_out_cats:both-sides-typed-through-the-same-partition_meta-entry',
-           sorted(metas) == ['v0 = val_to_num(v0, meta=partition_meta.get(cat))',
-                             'val = val_to_num(val, meta=partition_meta.get(cat))'], str(metas), m.loc(g))
+           metas_ok and {norm(s.targets[0]) for s in typed} == {'val', 'v0'}, str(metas), m.loc(g))
 
 
 # ---------------------------------------------------------------------------
@@ -437,33 +441,50 @@ def r57(ctx, m, rule='R5.7'):
     f = m.func('filter_out_cats')
     cfg = CFG(f)
     casts = [st for st in iter_child_stmts(f.body) if isinstance(st, ast.Assign) and norm(st.targets[0]) == 'val'
-             and isinstance(st.value, ast.Call) and callee(st.value) == 'val_to_num' and kwarg(st.value, 'meta', 1) is not None]
-    ctx.ob(rule, 'api.filter_out_cats:typed-parse-of-the-constant-present', len(casts) <= 1, '%d cast sites' % len(casts), m.loc(f))
+             and any(isinstance(c, ast.Call) and callee(c) == 'val_to_num' and kwarg(c, 'meta', 1) is not None for c in ast.walk(st.value))]
+    ctx.ob(rule, 'api.filter_out_cats:typed-parse-of-the-constant-present', len(casts) <= 2, '%d cast sites' % len(casts), m.loc(f))
     for st in casts:
         tests = [(e, fld) for e, fld in cfg.enclosing_tests(st) if isinstance(e, ast.If)]
-        guarded = [e for e, fld in tests if any(isinstance(x, ast.Name) and x.id == 'val' for x in ast.walk(e.test))]
-        ok = bool(guarded)
-        detail = 'cast `%s` happens for every kind of constant' % norm(st)
-        if ok:
-            t = guarded[-1].test
-            detail = 'cast guarded by `%s`' % norm(t)
-            # the guard must exclude numbers against numeric partitions: either an isinstance(val, str) style
-            # test, or the negation of a predicate whose definition tests numbers.Real and the numeric kinds
+        guarded = [e for e, fld in tests if fld == 'body' and any(isinstance(x, ast.Name) and x.id == 'val' for x in ast.walk(e.test))]
+        ok = False
+        detail = 'cast `%s` happens for every kind of constant' % norm(st)[:80]
+        for e in guarded:
+            t = e.test
+            # some enclosing guard must exclude numbers against numeric partitions: an isinstance(val, str) style test,
+            # or the negation of a predicate whose definition tests numbers.Real and the numeric kinds
             txt = norm(t)
             if 'isinstance(val, str)' in txt or txt == 'text':
                 ok = True
             else:
                 preds = [callee(c) for c in ast.walk(t) if isinstance(c, ast.Call) and callee(c) in m.funcs]
-                ok = False
                 for pname in preds:
                     ps = src(m.func(pname))
                     neg = isinstance(t, ast.UnaryOp) and isinstance(t.op, ast.Not)
                     if neg and 'numbers.Real' in ps and "'iuf'" in ps.replace('"', "'"):
                         ok = True
-                detail += '; predicate(s) %s' % preds
-        ctx.ob(rule, 'api.filter_out_cats:numbers-are-not-cast-to-the-partition-type', ok, detail, m.loc(st))
+            detail = 'cast guarded by %s' % [norm(x.test)[:60] for x in guarded]
+        ctx.ob(rule, 'api.filter_out_cats:numbers-are-not-cast-to-the-partition-type:%s' % ('each-candidate' if isinstance(st.value, ast.ListComp) else 'scalar'),
+               ok, detail, m.loc(st))
+        if isinstance(st.value, ast.ListComp):
+            # candidates of in / not in are typed one by one
+            ctx.ob(rule, 'api.filter_out_cats:list-constants-typed-element-wise', norm(st.value.generators[0].iter) == 'val', norm(st)[:90], m.loc(st))
+    lists = [st for st in casts if isinstance(st.value, ast.ListComp)]
+    ctx.ob(rule, 'api.filter_out_cats:list-constants-are-not-cast-as-one-scalar', len(lists) == 1 or not casts,
+           'a list handed to the scalar cast becomes its own text (str partitions), one bool, or raises', m.loc(f))
     # the partition value itself is always typed with the recorded type
     pv = [st for st in iter_child_stmts(f.body) if isinstance(st, ast.Assign) and norm(st.targets[0]) == 'v0'
           and isinstance(st.value, ast.Call) and callee(st.value) == 'val_to_num' and kwarg(st.value, 'meta', 1) is not None]
     ok = len(pv) == 1 and [norm(e.test) for e, fld in cfg.enclosing_tests(pv[0]) if isinstance(e, ast.If)] == ['cat in partition_meta']
     ctx.ob(rule, 'api.filter_out_cats:partition-value-typed-whenever-its-type-is-recorded', ok, '', m.loc(f))
+
+
+def r59(ctx, m, rule='R5.9'):
+    """the schema element of the column a condition names is looked up by the chunk's path *list* (as api.statistics
+    does): a joined string is split on dots again, which breaks flat columns whose name contains a dot"""
+    for q in ('filter_out_stats',):
+        f = m.func(q)
+        calls = [c for c in walk_no_nested(f) if isinstance(c, ast.Call) and (callee(c) or '').endswith('schema_element')]
+        ctx.floor(rule, 'schema element look-ups in %s' % q, len(calls), 1)
+        for c in calls:
+            ctx.ob(rule, 'api.%s:schema-element-looked-up-by-path-list' % q, bool(c.args) and norm(c.args[0]).endswith('path_in_schema'),
+                   '`%s`' % norm(c), m.loc(c))
